@@ -3,6 +3,17 @@ from vfw.spec import Fn, Type, Impl, C, Loop, Rewrite, Insert
 
 F = "src/util/bigint.rs"
 
+# generic R3: any binary operator whose left operand is `&self.bigint` (or `&rhs.bigint`) inside parentheses is
+# rewritten to its UFCS desugaring wherever it occurs (count=None: zero or more occurrences), so that new uses of
+# such operators do not crash the verifier
+_OPS = {">>": "Shr::shr", "<<": "Shl::shl", "+": "Add::add", "-": "Sub::sub", "*": "Mul::mul", "/": "Div::div", "%": "Rem::rem",
+        "&": "BitAnd::bitand", "|": "BitOr::bitor", "^": "BitXor::bitxor"}
+import re as _re
+GENERIC_R3 = []
+for _op, _tr in _OPS.items():
+    GENERIC_R3.append(Rewrite(r"\(&(self|rhs)\.bigint\s*" + _re.escape(_op) + r"\s*([^;()]+?)\)", r"core::ops::" + _tr + r"(&\1.bigint, \2)",
+                              count=None, regex=True, rule="R3", why="operator on a reference operand -> its UFCS desugaring (generic form)"))
+
 TYPES = [
     Type(F, "const", "BIGINT_MAX_BITS"),
     Type(F, "struct", "BigInt", derive="drop"),
@@ -79,7 +90,7 @@ checked_div = Fn(F, "checked_div", impl="BigInt", ret="res", props=["C05", "C03"
                      C("div_by_zero_is_error", "rhs.val() == 0 <==> res is Err", ["C05"]),
                      C("truncates_toward_zero", "res is Ok ==> res->Ok_0.val() == num_bigint::tdiv(self.val(), rhs.val()) && res->Ok_0.size is None", ["C05"]),
                  ],
-                 rewrites=[MAPINTO])
+                 rewrites=[MAPINTO] + GENERIC_R3)
 
 checked_mod = Fn(F, "checked_mod", impl="BigInt", ret="res", props=["C05", "C03"],
                  ensures=LOUD + [
